@@ -349,3 +349,137 @@ def matrix_case(r, cid):
         L.append(q)
     L.append("end")
     return "\n".join(L) + "\n"
+
+
+# ---------------------------------------------------------------------------------------------------------------
+# fourth stream: TWINS -- the same grid built by two routes, in every pair of lazy states, compared by every
+# binary query, twice and in both argument orders
+# ---------------------------------------------------------------------------------------------------------------
+def _cg_tuple(r, n, eq_bias=0.5):
+    a = [r.choice([0, 0, 1, -1, 2, -2, 3, 4]) for _ in range(n)]
+    m = 0 if r.random() < eq_bias else r.choice([1, 2, 3, 4, 6])
+    return [r.randint(-4, 4), m, a]
+
+
+def _cg_str(c):
+    return "%d %d %s" % (c[0], c[1], " ".join(map(str, c[2])))
+
+
+def equivalent_cgs(r, C):
+    """Another congruence system with the same solutions: congruences scaled, multiples of equalities added to the
+    other rows (the minimal form of a system with equalities is not unique), shuffled, possibly with a repeated row."""
+    D = [[c[0], c[1], list(c[2])] for c in C]
+    for i, c in enumerate(D):
+        if c[1] == 0 and r.random() < 0.7:
+            for j, d in enumerate(D):
+                if j != i and r.random() < 0.6:
+                    t = r.choice([1, -1, 2, -2, 3])
+                    d[0] += t * c[0]
+                    d[2] = [x + t * y for x, y in zip(d[2], c[2])]
+    for c in D:
+        k = r.choice([1, 1, 2, -1, 3, -2]) if c[1] == 0 else r.choice([1, 1, 2, -1])
+        c[0] *= k; c[1] *= abs(k); c[2] = [k * x for x in c[2]]
+    if D and r.random() < 0.3:
+        D.append([x if not isinstance(x, list) else list(x) for x in r.choice(D)])
+    r.shuffle(D)
+    return D
+
+
+def _gen_tuple(r, n, kind):
+    a = [r.choice([0, 0, 1, -1, 2, -2, 3]) for _ in range(n)]
+    if kind == "l" and not any(a):
+        a[r.randrange(n)] = 1
+    return [kind, 1 if kind == "l" else r.choice(DIVS), a]
+
+
+def _gen_str(g):
+    return "%s %d %s" % (g[0], g[1], " ".join(map(str, g[2])))
+
+
+def equivalent_gens(r, G):
+    """Another generator system for the same grid: lines scaled and added to any row, unimodular combinations of
+    parameters, points moved by parameters, an extra point of the grid, shuffled."""
+    H = [[g[0], g[1], list(g[2])] for g in G]
+    lines = [g for g in H if g[0] == "l"]
+    pars = [g for g in H if g[0] == "q"]
+    for l in lines:
+        for g in H:
+            if g is not l and r.random() < 0.4:
+                t = r.choice([1, -1, 2])
+                g[2] = [x + t * y for x, y in zip(g[2], l[2])]
+    for l in lines:
+        k = r.choice([1, 2, -1, 3])
+        l[2] = [k * x for x in l[2]]
+    for i, q in enumerate(pars):
+        for g in H:
+            if g is not q and g[0] != "l" and (g[0] == "p" or pars.index(g) > i) and r.random() < 0.4:
+                t = r.choice([1, -1, 2])
+                g[2] = [x * q[1] + t * y * g[1] for x, y in zip(g[2], q[2])]
+                g[1] = g[1] * q[1]
+    pts = [g for g in H if g[0] == "p"]
+    if pars and pts and r.random() < 0.4:
+        p, q = r.choice(pts), r.choice(pars)
+        H.append(["p", p[1] * q[1], [x * q[1] + y * p[1] for x, y in zip(p[2], q[2])]])
+    r.shuffle(H)
+    return H
+
+
+def state_driver(r, x, n):
+    """Operations that leave the grid unchanged but move its lazy state / representation."""
+    v = r.randrange(n) if n else 0
+    rest = [0 if i == v else r.choice([0, 0, 1, -1, 2]) for i in range(n)]
+    b = r.randint(-2, 2)
+    fwd = " ".join(str(1 if i == v else rest[i]) for i in range(n))
+    back = " ".join(str(1 if i == v else -rest[i]) for i in range(n))
+    perm = list(range(n)); r.shuffle(perm)
+    inv = [perm.index(i) for i in range(n)]
+    D = [[], ["obs %d mcgs"], ["obs %d mgens"], ["obs %d cgs"], ["obs %d gens"], ["obs %d mcgs", "obs %d mgens"],
+         ["obs %d mgens", "obs %d mcgs"], ["join %d %d"], ["inters %d %d"], ["obs %d mcgs", "join %d %d"],
+         ["obs %d mgens", "inters %d %d"], ["obs %d mcgs", "inters %d %d"], ["q %d is_empty"], ["q %d is_universe"]]
+    out = [l % ((x,) * l.count("%d")) for l in r.choice(D)]
+    if n and r.random() < 0.25:
+        out += ["image %d %d %d 1 %s" % (x, v, b, fwd), "image %d %d %d 1 %s" % (x, v, -b, back)]
+    if n >= 2 and r.random() < 0.15:
+        out += ["mapdims %d %s" % (x, " ".join(map(str, perm))), "mapdims %d %s" % (x, " ".join(map(str, inv)))]
+    if r.random() < 0.1:
+        out += ["embed %d 1" % x, "rmhigher %d %d" % (x, n)]
+    if r.random() < 0.3:
+        out += [l % ((x,) * l.count("%d")) for l in r.choice(D)]
+    return out
+
+
+def twins_case(r, cid):
+    global SPARSE, SUPPORT
+    SPARSE, SUPPORT = False, None
+    n = r.choice([1, 2, 2, 3, 3, 4])
+    L = ["case %s" % cid]
+    route = r.random()
+    if route < 0.55:
+        C = [_cg_tuple(r, n, 0.55) for _ in range(r.randint(1, min(4, n + 1)))]
+        L.append("new 0 dim %d cgs %d %s" % (n, len(C), " ".join(map(_cg_str, C))))
+        if r.random() < 0.75:
+            D = equivalent_cgs(r, C)
+            L.append("new 1 dim %d cgs %d %s" % (n, len(D), " ".join(map(_cg_str, D))))
+        else:
+            L.append("copy 1 0")
+    elif route < 0.9:
+        G = [_gen_tuple(r, n, "p")] + [_gen_tuple(r, n, r.choice("pqqql")) for _ in range(r.randint(0, 3))]
+        L.append("new 0 dim %d gens %d %s" % (n, len(G), " ".join(map(_gen_str, G))))
+        if r.random() < 0.75:
+            H = equivalent_gens(r, G)
+            L.append("new 1 dim %d gens %d %s" % (n, len(H), " ".join(map(_gen_str, H))))
+        else:
+            L.append("assign 1 0")
+    else:
+        L.append(new_obj(r, 0, n))
+        L.append("copy 1 0")
+    L += state_driver(r, 0, n)
+    L += state_driver(r, 1, n)
+    qs = []
+    for what in ["equals", "contains", "strictly_contains", "disjoint"]:
+        qs += ["q2 0 1 %s" % what, "q2 1 0 %s" % what]
+    first = r.sample(qs, r.randint(3, 6))
+    L += first
+    L += first[:3]                     # asked twice (the first round may have moved the lazy states)
+    L.append("end")
+    return "\n".join(L) + "\n"
